@@ -2,7 +2,7 @@
    serialization: structural equality is equality, the encoder writes the documented bytes,
    the decoder reads them back exactly (design/WIRE_THEOREMS.md, section ReflProofs.v). *)
 From Coq Require Import ZifyN ZifyNat ZifyBool.
-From QV Require Import Wire.
+From QV Require Import Wire WireLemmas.
 Local Open Scope N_scope.
 
 (* ---------- structural equality ---------- *)
@@ -79,89 +79,6 @@ Qed.
 Lemma tval_eqb_eq : forall a b, tval_eqb a b = true <-> a = b.
 Proof. intros a b; split; [apply tval_eqb_true|intro H; subst b; apply tval_eqb_refl]. Qed.
 
-(* ---------- typing: inversion per value constructor (local copies, suffix _r) ---------- *)
-Lemma expand1_obj_r : expand1 (TS SObject) = ty_ObjectReference.
-Proof. reflexivity. Qed.
-
-Lemma expand1_not_obj_r : forall t, t <> TS SObject -> expand1 t = t.
-Proof. intros t H. destruct t as [[]| | | |]; try reflexivity. now elim H. Qed.
-
-Lemma has_ty_obj_r : forall v, has_ty v (TS SObject) = has_ty v ty_ObjectReference.
-Proof. intro v. destruct v; reflexivity. Qed.
-
-Lemma has_ty_num_inv_r : forall w b t, has_ty (VNum w b) t = true ->
-  exists s, t = TS s /\ scalar_width s = Some w /\ b < 2 ^ (8 * N.of_nat w).
-Proof.
-  intros w b t H. destruct t as [s| | | |]; [|discriminate H..].
-  exists s. destruct s; cbn [has_ty expand1 scalar_width ty_ObjectReference] in H; try discriminate H;
-    apply andb_true_iff in H as [H1 H2]; apply Nat.eqb_eq in H1; apply N.ltb_lt in H2; subst w; auto.
-Qed.
-
-Lemma has_ty_bool_inv_r : forall b t, has_ty (VBool b) t = true -> t = TS SBool.
-Proof. intros b t H. destruct t as [[]| | | |]; try discriminate H. reflexivity. Qed.
-
-Lemma has_ty_str_inv_r : forall s t, has_ty (VStr s) t = true ->
-  t = TS SStr /\ N.of_nat (List.length s) <= MaxStringSize.
-Proof.
-  intros s t H. destruct t as [[]| | | |]; try discriminate H.
-  cbn [has_ty expand1] in H. apply N.leb_le in H. auto.
-Qed.
-
-Lemma has_ty_list_inv_r : forall l t, has_ty (VList l) t = true ->
-  exists t', t = TList t' /\ N.of_nat (List.length l) < 2 ^ 31 /\ Forall (fun x => has_ty x t' = true) l.
-Proof.
-  intros l t H. destruct t as [[]|t'| | |]; try discriminate H.
-  cbn [has_ty expand1] in H. apply andb_true_iff in H as [H1 H2]. apply N.ltb_lt in H1.
-  exists t'. repeat split; [exact H1|]. apply Forall_forall. intros x Hx.
-  rewrite forallb_forall in H2. now apply H2.
-Qed.
-
-Lemma has_ty_map_inv_r : forall kvs t, has_ty (VMap kvs) t = true ->
-  exists tk tv, t = TMap tk tv /\ N.of_nat (List.length kvs) < 2 ^ 31 /\
-    Forall (fun kv => has_ty (fst kv) tk = true /\ has_ty (snd kv) tv = true) kvs.
-Proof.
-  intros kvs t H. destruct t as [[]| |tk tv| |]; try discriminate H.
-  cbn [has_ty expand1] in H. apply andb_true_iff in H as [H1 H2]. apply N.ltb_lt in H1.
-  exists tk, tv. repeat split; [exact H1|]. apply Forall_forall. intros x Hx.
-  rewrite forallb_forall in H2. apply andb_true_iff. now apply H2.
-Qed.
-
-Lemma has_ty_tuple_r : forall l ts, has_ty (VTup l) (TTuple ts) = true ->
-  Forall2 (fun x t => has_ty x t = true) l ts.
-Proof.
-  induction l as [|x l IH]; intros [|t ts] H; cbn [has_ty expand1] in H; try discriminate H; [constructor|].
-  apply andb_true_iff in H as [H1 H2]. constructor; [exact H1|]. apply IH. destruct l; exact H2.
-Qed.
-
-Lemma has_ty_struct_r : forall l n fs, has_ty (VTup l) (TStruct n fs) = true ->
-  Forall2 (fun x f => has_ty x (snd f) = true) l fs.
-Proof.
-  induction l as [|x l IH]; intros n [|f fs] H; cbn [has_ty expand1] in H; try discriminate H; [constructor|].
-  apply andb_true_iff in H as [H1 H2]. constructor; [exact H1|]. apply (IH n). destruct l; exact H2.
-Qed.
-
-Lemma has_ty_tup_inv_r : forall l t, has_ty (VTup l) t = true ->
-  (exists ts, t = TTuple ts /\ Forall2 (fun x t' => has_ty x t' = true) l ts)
-  \/ (exists n fs, expand1 t = TStruct n fs /\ Forall2 (fun x f => has_ty x (snd f) = true) l fs)
-  \/ (t = TS SVoid /\ l = []).
-Proof.
-  intros l t H. destruct t as [s| | |ts|n fs]; try (destruct l; discriminate H).
-  - destruct s; try (destruct l; discriminate H).
-    + right; left. rewrite has_ty_obj_r in H. unfold ty_ObjectReference in H |- *.
-      eexists; eexists; split; [reflexivity|]. eapply has_ty_struct_r. exact H.
-    + right; right. split; [reflexivity|]. destruct l as [|x l]; [reflexivity|discriminate H].
-  - left. exists ts. split; [reflexivity|]. now apply has_ty_tuple_r.
-  - right; left. exists n, fs. split; [reflexivity|]. now apply (has_ty_struct_r l n).
-Qed.
-
-Lemma has_ty_dyn_inv_r : forall t' v' t, has_ty (VDyn t' v') t = true ->
-  t = TS SValue /\ good_ty t' = true /\ N.of_nat (String.length (print t')) <= MaxStringSize /\ has_ty v' t' = true.
-Proof.
-  intros t' v' t H. destruct t as [[]| | | |]; try discriminate H.
-  cbn [has_ty expand1] in H. apply andb_true_iff in H as [H12 H3]. apply andb_true_iff in H12 as [H1 H2].
-  apply N.leb_le in H2. auto.
-Qed.
-
 Lemma refl_domain_expand1_r : forall t, refl_domain t = true -> refl_domain (expand1 t) = true.
 Proof. intros t H. destruct t as [[]| | | |]; exact H. Qed.
 
@@ -184,17 +101,17 @@ Section P.
     - now rewrite Hd8, andb_false_r.
     - reflexivity.
     - reflexivity.
-    - apply has_ty_list_inv_r in Hty as [t' [Et [Hlen Hall]]]. subst t. cbn [refl_domain] in Hdom.
+    - apply has_ty_VList in Hty as [t' [Et [Hlen Hall]]]. subst t. cbn [refl_domain] in Hdom.
       unfold enc_u32. f_equal. apply flat_map_ext_Forall.
       rewrite Forall_forall in IHl, Hall |- *. intros x Hx. apply (IHl x Hx t'); auto.
-    - apply has_ty_map_inv_r in Hty as [tk [tv [Et [Hlen Hall]]]]. subst t. cbn [refl_domain] in Hdom.
+    - apply has_ty_VMap in Hty as [tk [tv [Et [Hlen Hall]]]]. subst t. cbn [refl_domain] in Hdom.
       apply andb_true_iff in Hdom as [Hdk Hdv].
       unfold enc_u32. f_equal. apply flat_map_ext_Forall.
       rewrite Forall_forall in IHkvs, Hall |- *. intros kv Hkv.
       destruct (IHkvs kv Hkv) as [IHk IHv]. destruct (Hall kv Hkv) as [Hk Hv].
       now rewrite (IHk tk), (IHv tv).
     - apply flat_map_ext_Forall.
-      apply has_ty_tup_inv_r in Hty as [[ts [Et Hall]]|[[n [fs [Et Hall]]]|[Et El]]].
+      apply has_ty_VTup_expand in Hty as [[ts [Et Hall]]|[[n [fs [Et Hall]]]|[Et El]]].
       + subst t. cbn [refl_domain] in Hdom. rewrite forallb_forall in Hdom.
         induction Hall as [|x t l ts Hx Hr IH]; [constructor|].
         inversion IHl as [|x' l' IHx IHr]; subst.
@@ -207,95 +124,81 @@ Section P.
         constructor; [apply (IHx (snd f)); [exact Hx|apply (Hdom f); now left]|].
         apply IH; [exact IHr|]. intros f0 Hf0. apply Hdom. now right.
       + subst l. constructor.
-    - apply has_ty_dyn_inv_r in Hty as [Et _]. subst t. discriminate Hdom.
+    - apply has_ty_VDyn in Hty as [Et _]. subst t. discriminate Hdom.
   Qed.
 
-  (* ---------- generic decoding lemmas (local copies, suffix _r) ---------- *)
-  Lemma take_n_app_r : forall (a rest : bytes), take_n (List.length a) (a ++ rest) = ROk (a, rest).
-  Proof.
-    intros a rest. unfold take_n.
-    replace (Nat.ltb (List.length (a ++ rest)) (List.length a)) with false
-      by (symmetry; apply Nat.ltb_ge; rewrite app_length; lia).
-    now rewrite firstn_app_exact, skipn_app_exact.
-  Qed.
-
-  Lemma read_num_le_r : forall w x rest, x < 2 ^ (8 * N.of_nat w) -> read_num w (le w x ++ rest) = ROk (x, rest).
-  Proof.
-    intros w x rest Hx. unfold read_num.
-    rewrite <- (le_length w x) at 1. rewrite take_n_app_r. cbn [bind].
-    now rewrite unle_le_small.
-  Qed.
-
-  Lemma enc_str_length_r : forall s, List.length (enc_str s) = (4 + List.length s)%nat.
-  Proof. intro s. unfold enc_str, enc_u32. now rewrite app_length, le_length. Qed.
-
-  Lemma read_str_enc_r : forall s rest, N.of_nat (List.length s) <= MaxStringSize ->
-    read_str (enc_str s ++ rest) = ROk (s, rest).
-  Proof.
-    intros s rest Hs. unfold read_str, enc_str, enc_u32. rewrite <- app_assoc.
-    unfold MaxStringSize in Hs.
-    rewrite read_num_le_r by (change (2 ^ (8 * N.of_nat 4)) with 4294967296; lia).
-    cbn [bind].
-    destruct (N.eqb_spec (N.of_nat (List.length s)) 0) as [E0|N0].
-    - destruct s as [|x s]; [reflexivity|cbn [List.length] in E0; lia].
-    - replace (MaxStringSize <? N.of_nat (List.length s)) with false
-        by (symmetry; apply N.ltb_ge; unfold MaxStringSize; lia).
-      rewrite Nat2N.id. apply take_n_app_r.
-  Qed.
-
-  Section LoopsExact.
-    Context {A : Type}.
-    Variable p : bytes -> res (A * bytes).
-    Variable enc : A -> bytes.
-
-    Lemma rep_nat_exact_r : forall (l : list A) rest,
-      (forall x, In x l -> forall r, p (enc x ++ r) = ROk (x, r)) ->
-      rep_nat p (List.length l) (flat_map enc l ++ rest) = ROk (l, rest).
-    Proof.
-      induction l as [|x l IH]; intros rest Hp; [reflexivity|].
-      cbn [List.length rep_nat flat_map]. rewrite <- app_assoc.
-      rewrite (Hp x (or_introl eq_refl)).
-      rewrite IH by (intros y Hy; apply Hp; now right). reflexivity.
-    Qed.
-
-    Lemma flat_map_length_ge_r : forall (l : list A),
-      (forall x, In x l -> (1 <= List.length (enc x))%nat) ->
-      (List.length l <= List.length (flat_map enc l))%nat.
-    Proof.
-      induction l as [|x l IH]; intro Hn; [cbn; lia|].
-      cbn [flat_map List.length]. rewrite app_length.
-      pose proof (Hn x (or_introl eq_refl)) as H1.
-      assert (H2 : (List.length l <= List.length (flat_map enc l))%nat)
-        by (apply IH; intros y Hy; apply Hn; now right).
-      lia.
-    Qed.
-
-    Lemma rep_exact_r : forall (l : list A) rest,
-      (forall x, In x l -> forall r, p (enc x ++ r) = ROk (x, r)) ->
-      (forall x, In x l -> (1 <= List.length (enc x))%nat) ->
-      rep p (N.of_nat (List.length l)) (flat_map enc l ++ rest) = ROk (l, rest).
-    Proof.
-      intros l rest Hp Hn. unfold rep.
-      pose proof (flat_map_length_ge_r l Hn) as Hlen.
-      replace (N.of_nat (List.length (flat_map enc l ++ rest)) <? N.of_nat (List.length l)) with false
-        by (symmetry; apply N.ltb_ge; rewrite app_length; lia).
-      rewrite Nat2N.id. now apply rep_nat_exact_r.
-    Qed.
-  End LoopsExact.
-
-  Lemma pair_with_exact_r : forall {A B} (pk : bytes -> res (A * bytes)) (pv : bytes -> res (B * bytes))
-      (ek ev : bytes) (k : A) (v : B) rest,
-    (forall r, pk (ek ++ r) = ROk (k, r)) -> (forall r, pv (ev ++ r) = ROk (v, r)) ->
-    pair_with pk pv ((ek ++ ev) ++ rest) = ROk ((k, v), rest).
-  Proof.
-    intros A B pk pv ek ev k v rest Hk Hv. unfold pair_with.
-    now rewrite <- app_assoc, Hk, Hv.
-  Qed.
-
-  Lemma fields_with_exact_r : forall (ps : list ((bytes -> res (tval * bytes)) * tval)) (l : list tval),
-    Forall2 (fun pz x => forall r, fst pz (spec_enc x ++ r) = ROk (x, r)) ps l ->
-    forall rest, fields_with c ps (flat_map spec_enc l ++ rest) = ROk (l, rest).
+  (* ---------- struct fields read in sequence ---------- *)
+  Lemma fields_with_exact : forall (ps : list ((bytes -> res (tval * bytes)) * tval)) (l : list tval),
+    Forall2 (fun pz x => exact (fst pz) x (spec_enc x)) ps l ->
+    exact (fields_with c ps) l (flat_map spec_enc l).
   Proof.
     intros ps l H. induction H as [|[p z] x ps l Hx Hr IH]; intro rest; [reflexivity|].
     cbn [fst] in Hx. cbn [fields_with flat_map]. rewrite <- app_assoc, Hx, IH. reflexivity.
   Qed.
+
+  (* ---------- side conditions of the decoder theorem ---------- *)
+  (* every list and map has at most listValueMaxSize entries *)
+  Fixpoint lens_ok (v : tval) : bool :=
+    match v with
+    | VList l => (N.of_nat (List.length l) <=? listValueMaxSize) && forallb lens_ok l
+    | VMap kvs => (N.of_nat (List.length kvs) <=? listValueMaxSize)
+                  && forallb (fun kv => lens_ok (fst kv) && lens_ok (snd kv)) kvs
+    | VTup l => forallb lens_ok l
+    | VDyn _ v' => lens_ok v'
+    | _ => true
+    end.
+
+  (* map keys pairwise distinct, at every map *)
+  Fixpoint keys_nodup (v : tval) : Prop :=
+    match v with
+    | VList l | VTup l => fold_right (fun x a => keys_nodup x /\ a) True l
+    | VMap kvs => NoDup (map fst kvs)
+                  /\ fold_right (fun kv a => (keys_nodup (fst kv) /\ keys_nodup (snd kv)) /\ a) True kvs
+    | VDyn _ v' => keys_nodup v'
+    | _ => True
+    end.
+
+  Lemma fold_right_and_Forall {A} (P : A -> Prop) (l : list A) :
+    fold_right (fun x a => P x /\ a) True l <-> Forall P l.
+  Proof.
+    induction l as [|x l IH]; cbn [fold_right]; split; intro H.
+    - constructor.
+    - exact I.
+    - destruct H as [Hx Hl]. constructor; [exact Hx|now apply IH].
+    - inversion H as [|x' l' Hx Hl]; subst. split; [exact Hx|now apply IH].
+  Qed.
+
+  Lemma keys_nodup_VList : forall l, keys_nodup (VList l) <-> Forall keys_nodup l.
+  Proof. intro l. cbn [keys_nodup]. apply fold_right_and_Forall. Qed.
+  Lemma keys_nodup_VTup : forall l, keys_nodup (VTup l) <-> Forall keys_nodup l.
+  Proof. intro l. cbn [keys_nodup]. apply fold_right_and_Forall. Qed.
+  Lemma keys_nodup_VMap : forall kvs, keys_nodup (VMap kvs) <->
+    NoDup (map fst kvs) /\ Forall (fun kv => keys_nodup (fst kv) /\ keys_nodup (snd kv)) kvs.
+  Proof.
+    intro kvs. cbn [keys_nodup].
+    rewrite (fold_right_and_Forall (fun kv => keys_nodup (fst kv) /\ keys_nodup (snd kv))). reflexivity.
+  Qed.
+
+  (* ---------- insertion into a map whose keys are distinct keeps the order ---------- *)
+  Lemma map_insert_fresh : forall m k v, ~ In k (map fst m) -> map_insert tval_eqb m k v = m ++ [(k, v)].
+  Proof.
+    induction m as [|[k' v'] m IH]; intros k v Hnin; [reflexivity|].
+    cbn [map_insert app]. cbn [map fst In] in Hnin.
+    destruct (tval_eqb k k') eqn:E.
+    - apply tval_eqb_eq in E. subst k'. elim Hnin. now left.
+    - rewrite IH; [reflexivity|]. intro Hin. apply Hnin. now right.
+  Qed.
+
+  Lemma map_of_acc_nodup : forall kvs acc, NoDup (map fst (acc ++ kvs)) ->
+    fold_left (fun m kv => map_insert tval_eqb m (fst kv) (snd kv)) kvs acc = acc ++ kvs.
+  Proof.
+    induction kvs as [|[k v] kvs IH]; intros acc Hnd; [now rewrite app_nil_r|].
+    cbn [fold_left fst snd].
+    rewrite map_insert_fresh.
+    - rewrite IH; [now rewrite <- app_assoc|]. now rewrite <- app_assoc.
+    - rewrite map_app in Hnd. cbn [map fst] in Hnd. apply NoDup_remove_2 in Hnd.
+      intro Hin. apply Hnd. apply in_or_app. now left.
+  Qed.
+
+  Lemma map_of_nodup : forall kvs, NoDup (map fst kvs) -> map_of tval_eqb kvs = kvs.
+  Proof. intros kvs Hnd. unfold map_of. now rewrite map_of_acc_nodup. Qed.
